@@ -31,7 +31,12 @@ def main() -> int:
     if args.cmd == "check":
         return runner.check_property(args.prop, args.tier, only=args.only, jobs=args.jobs)
     if args.cmd == "replay":
-        return subprocess.call([runner.PLAIN_PY, args.path], env=runner.child_env())
+        flags = []
+        with open(args.path) as f:
+            for line in f.readlines()[:3]:
+                if line.startswith("# PYFLAGS:"):
+                    flags = line.split(":", 1)[1].split()
+        return subprocess.call([runner.PLAIN_PY] + flags + [args.path], env=runner.child_env())
     return 2
 
 
